@@ -304,10 +304,14 @@ class Battery:
             # maximal
             strict = {e for e in es if not any(f != e and p.mem[e] <= p.mem[f] for f in es)}
             nonstrict = {e for e in es if not any(p.mem[e] < p.mem[f] for f in es)}
-            got = set(ev.maximal(strict=True))
-            ok(got == strict, "edges.maximal", "strict-wrong", f"maximal(strict=True) = {got} expected {strict}", "assert:maximal")
             got = set(ev.maximal())
             ok(got == nonstrict, "edges.maximal", "nonstrict-wrong", f"maximal() = {got} expected {nonstrict}", "assert:maximal")
+            got = set(ev.maximal(strict=True))
+            ok(got == strict, "edges.maximal", "strict-wrong", f"maximal(strict=True) = {got} expected {strict}", "assert:maximal")
+            # asked again in the order the next state will ask first (a last-result cache keyed on the ID sets would
+            # answer the next state's first query from this state's result)
+            got = set(ev.maximal())
+            ok(got == nonstrict, "edges.maximal", "nonstrict-wrong-on-repeat", f"second maximal() = {got} expected {nonstrict}", "assert:maximal")
             # duplicates: k-1 IDs out of every class of k
             classes = {}
             for e in es:
